@@ -16,6 +16,9 @@ def run(ctx):
         {"scens": h2[:: (7 if q else 1)], "policies": ("JOBS",), "bound": 1, "cap": 4000},
         {"scens": wcat.index_twoproc_scenarios(), "policies": ("FIFO", "LIFO"), "bound": 1 if q else 2, "cap": 30000},
         {"scens": wcat.index_kill_scenarios(), "policies": ("FIFO",), "kills": {"restart_bound": 0}},
+        {"scens": wcat.index_blocked_scenarios(), "policies": ("FIFO",), "kills": {"restart_bound": 0}},
+        {"scens": wcat.index_blocked_scenarios(), "policies": ("LIFO",), "kills": {"restart_bound": 0}},
+        {"scens": wcat.index_blocked_scenarios(), "policies": ("Q:1,2,job",), "kills": {"restart_bound": 0}},
     ]
     return run_w(ctx, PROPERTY, plan,
                  "all histories of 3 runs of one experiment name over subsets of two jobs x {normal end, exception in the block} (512), all histories of 2 "
